@@ -12,8 +12,43 @@
 // once per path; both are compared with the same reference. Replays carry the path in
 // the case and switch once, before the case runs.
 //
-// MUTANT TABLE: see the end of this comment block in the final version (filled in after
-// the sensitivity runs).
+// Defect found on the pinned tree (open known finding C16/diff-verify/index-unbound, probe in
+// known_test.go): VerifyDiffProof / VerifyFreeSectorsProof accept a proof built for one
+// index set under a different index list. While the key is open, an altered index list
+// that refers to a different set of old sectors AND is accepted is counted under
+// "excluded" instead of failing; every other alteration must still be rejected.
+//
+// Sensitivity (tools/with_mutant.sh … ./run C16 quick, VERIF_SCALE=0.3, seed 1; wall seconds
+// are whole driver runs on a machine shared with other jobs):
+//
+//	mutant (file:line)                                                        result   s    first key
+//	A  v2:48   proofAccumulator.insertNode SumPair operands swapped           killed   93  sector-range/complete
+//	C  v2:284  RangeProofSize mask (end-1)^n instead of (end-1)^(n-1)         killed   95  sector-range/size
+//	X  v2:293  nextSubtreeSize maxSize one too large                           killed   60  sector-range/complete
+//	Z  v2:409  RangeProofVerifier.Verify length check != -> <                  killed  105  sector-range/accepts-proof-long
+//	E  v2:446  VerifySectorRangeProof length check != -> <                     SURVIVED (equivalent: the right-hand
+//	           insertRange consumes every remaining hash, so a longer proof still changes the root)
+//	F  v2:536  verifyMulti no longer requires len(treeHashes)==0               killed   89  diff|free/accepts-proof-long
+//	S13 v2:541 leaf-count check != -> >                                        killed   17  diff|free/accepts-leaf-long
+//	G  v4:310  VerifyAppendSectorsProof old-root check dropped                 killed   75  append/accepts-old-root
+//	S1 v2:478  VerifyAppendProof old-root check dropped                        killed   27  append/accepts-old-root
+//	H  v2:262  MetaRoot threshold 2*LeavesPerSector (only n >= 131072 differ)  killed   79  roots/meta (index panic)
+//	I  v2:164  sectorAccumulator.root, 3 buffered nodes hashed as a,(b,c)      killed  132  sector/partial, roots/meta
+//	J  v4:247  BuildSectorProof cache slice one entry short                    killed  105  sector-range/build
+//	K  v2:687  modifyLeaves swap is a no-op                                    killed  200  diff|free/complete
+//	M  amd64   lanes 2,3 exchanged after hashBlocksAVX2 (Go wrapper)           killed   86  sector/root, hash/leaves (avx2 units only)
+//	N  v2:227  ReadSectorRoot whole-leaf check dropped                         killed   62  sector/partial
+//	S7 v2:226  ReadSectorRoot does not tolerate io.EOF between chunks          killed  115  sector/partial-root
+//	O  v2:251  ReadSector short stream not detected                            killed  121  sector/partial
+//	Y  v2:198  ReaderRoot batch of 15 leaves (breaks 4-leaf grouping)          killed  179  sector/stream, roots/reader
+//	Q  v2:706  ConvertProofOrdering takes left hashes from the front           killed   92  sector-range/convert, range/convert
+//	R  v2:560  DiffProofSize forgets the leaf hashes                           killed  196  diff/size
+//	U  blake2b Accumulator.AddLeaf SumPair operands swapped                    killed  140  append/build, roots/acc
+//	V  v2:334  BuildProof treats the leaf after the range as covered           killed  112  sector-range/build
+//	W  v4:279  VerifyLeafProof clears bit 0 of the index                       killed   85  sector-range/accepts-index-shift, complete
+//	S18 v2:378 BuildSectorRangeProof right side bounded by numLeaves           killed   18  range/build
+//	FIX v2:536 "&& acc.numLeaves == numLeaves" (proposed repair)               green; with the key closed the probe is clean and
+//	           all 421 912 index alterations of the n <= 8 free enumeration are rejected, every honest proof accepted
 package c16
 
 import (
